@@ -146,4 +146,26 @@ def build(ctx):
         hs.append(P.Harness("%s_odd_bigdata_%s_cxx17" % (sch.ns, label), hgen.harness([u], body), [u], unwind=4, track=True, cap=ctx.q(300, 900), backends=["minisat", "kissat"],
                             desc="%s.odd: %s with the <data> length prefix anywhere in 0..255 (incl. the uint8 maximum) on a view bound to malloc(n), n in 0..24" % (sch.ns, label),
                             bounds={"NMAX": 24, "length": "0..255", "std": "c++17"}))
+    # hostile <data> length of a 64-bit length type: sizeof(length) + length wraps in size_t, the size check must still refuse it
+    schd, incd = hgen.gen_headers(ctx, "vs_data_le.xml")
+    for mname, lsz in (("m_uint64_char", 8), ("m_uint32_uint8", 4)):
+        msg = schd.message(mname)
+        g = msggen.MG(schd, msg, 1)
+        u = ctx.lower("c10_%s_%s" % (schd.ns, mname), g.cpp_prelude() + g.cpp_getset(True) + g.cpp_geom(True, True) + g.cpp_cursor() + cpp_extra(g) + c17.cpp(g) + c05.cpp_csize(g) + "\n",
+                      std="17", mode="checked", incs=[incd])
+        for (label, call) in (("dinfo_d", "i64 o[4]; IN(u64, k); VASSUME(k < len); CALL(dinfo_%s_d(buf, n, 0, 0, k, o));" % mname),
+                              ("dset_d", "IN(u64, v); IN(u64, k); VASSUME(k < len); CALL(dset_%s_d(buf, n, 0, 0, k, v));" % mname),
+                              ("dresize_d", "IN(u64, v); VASSUME(v <= %s); CALL(dresize_%s_d(buf, n, 0, 0, v));" % ("0x%xULL" % ((1 << (8 * lsz)) - 1), mname))):
+            body = """  enum { NMAX = 28, LSZ = %(lsz)d };
+  IN_BYTES(img, NMAX); IN(u64, n); VASSUME(n <= NMAX);
+  /* header(8) with blockLength 0, then the <data> member: its length prefix is ANY value of the %(bits)d-bit length type */
+  img[%(obl)d] = 0; img[%(obl)d + 1] = 0;
+  u64 len = ref_rd(img + 8, LSZ, 0);
+  unsigned char *buf = VMALLOC(n); for (unsigned i = 0; i < NMAX; i++) if (i < n) buf[i] = img[i];
+  %(call)s
+  VASSERT(verif_aborted || !verif_oob, "if the assertion handler is not invoked, no byte at or beyond p+n was accessed (length prefix anywhere in its type: sizeof(length) + length must not wrap past the size check)");
+""" % {"obl": g.hdr["blockLength"][0], "call": call, "lsz": lsz, "bits": 8 * lsz}
+            hs.append(P.Harness("%s_%s_widelen_%s_cxx17" % (schd.ns, mname, label), hgen.harness([u], body), [u], unwind=4, track=True, cap=ctx.q(300, 900), backends=["minisat", "kissat"],
+                                desc="%s.%s: %s with the <data> length prefix anywhere in its %d-bit type on a view bound to malloc(n), n in 0..28" % (schd.ns, mname, label, 8 * lsz),
+                                bounds={"NMAX": 28, "length": "full range of the length type", "std": "c++17"}))
     return hs
